@@ -1,29 +1,32 @@
-import NjectProofs.IncludeFix
+import NjectProofs.IncludeSym
 /-
   C15 / C03, about the algorithm: the chain the include computation accepts is a FIXPOINT of the
   validity check.  In particular every value returned by an included provider has an included
   receiver above it (unless ConsumptionOptional / Unused), and every input of an included provider
   has an included source -- against the final include flags.
 
-  The two hypotheses about how dependencies were recorded by `providesReturns` (`depsSymB`,
-  `provOKB`) are decidable; they are evaluated by the driver on the model's own state for every
-  generated chain (record `m5deps`), not yet proved for all chains.
+  That `providesReturns` records every dependency in both directions is proved for all chains
+  (`NjectProofs/IncludeSym.lean`), so the fixpoint theorem is unconditional.  The hypothesis of the
+  C15 corollary about where recorded consumers come from (`provOKB`) is decidable; it is evaluated by
+  the driver on the model's own state for every generated chain (record `m5deps`), not yet proved for
+  all chains.
 -/
 namespace Nject
 
 /-- **the bound chain is a fixpoint of the validity check** -/
-theorem C03_bound_chain_is_a_fixpoint (ti : TyInfo) (funcs : List CP) (cannot0 : List Nat) (pre ch : Chain)
-    (hpre : inclusionBeforeFinal ti funcs cannot0 = .ok pre) (hsym : depsSymB pre = true)
+theorem C03_bound_chain_is_a_fixpoint (ti : TyInfo) (funcs : List CP) (cannot0 : List Nat) (ch : Chain)
     (h : computeInclusion ti funcs cannot0 = .ok ch) :
     ∀ j, (ch.get j).inc = true → (ch.get j).cannot = false ∧ localCheck ch (ch.get j) = true := by
   unfold computeInclusion at h
-  rw [hpre] at h
-  simp only at h
   split at h
   · cases h
-  · rename_i chf hv
-    cases h
-    exact (validate_fix true pre _ hv (depsSymB_sym hsym)).2
+  · rename_i pre hpre
+    split at h
+    · cases h
+    · rename_i chf hv
+      injection h with h
+      subst h
+      exact (validate_fix true pre _ hv (inclusionBeforeFinal_sym ti funcs cannot0 pre hpre)).2
 
 /-- every input (and every value expected from below) of an included provider has an included source -/
 theorem C03_included_providers_have_included_sources (ch : Chain)
@@ -41,9 +44,9 @@ theorem C03_included_providers_have_included_sources (ch : Chain)
     included provider that is not ConsumptionOptional (or Unused) is received by an included provider
     listed before it. -/
 theorem C15_bound_chain_consumes_returns (ti : TyInfo) (funcs : List CP) (cannot0 : List Nat) (pre ch : Chain)
-    (hpre : inclusionBeforeFinal ti funcs cannot0 = .ok pre) (hsym : depsSymB pre = true) (hprov : provOKB pre = true)
+    (hpre : inclusionBeforeFinal ti funcs cannot0 = .ok pre) (hprov : provOKB pre = true)
     (h : computeInclusion ti funcs cannot0 = .ok ch) : returnsConsumedB ch = true := by
-  have hfix := C03_bound_chain_is_a_fixpoint ti funcs cannot0 pre ch hpre hsym h
+  have hfix := C03_bound_chain_is_a_fixpoint ti funcs cannot0 ch h
   have hfr : FR pre ch := by
     unfold computeInclusion at h
     rw [hpre] at h
